@@ -13,7 +13,7 @@ ID = "C18"
 ZONES = ("America/New_York", "Asia/Kolkata", "Australia/Lord_Howe", "Pacific/Chatham", "Europe/Dublin", "America/St_Johns", "right/UTC")
 RULE = ("E-INPUT x configurations: calendar operations (7 units x floor/ceil/round/offset/range) on every day of 2020-2021 x 2 "
         "times of day and on every minute 00:00-04:59 of the seven 2021 DST transition dates of the zones, on every month boundary 1900-2100 (day/week/month/year units), at 7 wall-clock times on every date 1900-2037 on which one of the zones changes its UTC offset (from tzdata; also one month before/after for month arithmetic; a third of them marked fold=1); TimeScale mapping / "
-        "invert for instant pairs, ticks(m) and nice(m) over start instants x span ladder x counts, date-typed timeline items at every month boundary 1900-2100, and whole SVG/TikZ exports "
+        "invert for instant pairs, ticks(m) and nice(m) over start instants x span ladder x counts and over multi-year spans on and up to an hour beside the year-step thresholds, date-typed timeline items at every month boundary 1900-2100, and whole SVG/TikZ exports "
         "of datetime datasets - each executed under UTC and under America/New_York, Asia/Kolkata, Australia/Lord_Howe, "
         "Pacific/Chatham, Europe/Dublin, America/St_Johns and right/UTC (a zone file with a leap-second table) (process TZ switched with tzset), outputs compared byte for byte with the UTC run. "
         "Non-trivial: cases whose instants fall inside a DST gap/overlap of some zone, or straddle a transition.")
@@ -196,6 +196,18 @@ def all_cases(tier, seed):
                 cases.append((tag, ("ticks", st, sp, m)))
                 if sp >= 10:
                     cases.append((tag, ("nice", st, sp, m)))
+    # multi-year domains whose length sits on and up to an hour beside the lengths at which the year step switches
+    # (count / 0.75, / 0.35, / 0.15 years of 365 days), from a winter and from a summer start: the two ends are in
+    # different daylight-saving states in some of the zones
+    for st in (datetime(2001, 1, 1), datetime(2001, 7, 1), datetime(1987, 10, 4, 2, 15)):
+        for m in (10, 5):
+            for thr in (0.75, 0.35, 0.15):
+                for delta in (-3600e3, -1800e3, -1, 0, 1, 1800e3, 3600e3):
+                    sp = round(m / thr * 31536e6) + delta
+                    if (st + timedelta(milliseconds=sp)).year > 2200:
+                        continue
+                    cases.append(("dst", ("ticks", st, sp, m)))
+                    cases.append(("dst", ("nice", st, sp, m)))
     times = [datetime(2021, 3, 14, 2, 30), datetime(2021, 11, 7, 1, 30, 15), _dt.date(2021, 4, 4), datetime(2021, 10, 3, 2, 15),
              datetime(2021, 9, 26, 3, 0, 0, 999000), datetime(2021, 6, 30, 23, 59, 59), datetime(2021, 11, 7, 1, 10, fold=1)]
     alpha = [(t, 40, x) for t in times for x in (None, "ab")]
